@@ -278,15 +278,55 @@ def helpers_check(b, OS, rng, n):
             ("ordered_diff", m.ordered_diff, exp_d),
         ):
             b.count("helpers", name)
+            # the arguments are presented as every kind of iterable a caller may hold
+            pa = rng.choice(["list", "tuple", "OrderedSet", "dict-keys", "generator", "iter"])
+            pc = rng.choice(["list", "tuple", "set", "OrderedSet", "dict-keys", "generator", "iter", "map"])
+
+            def present(vals, how):
+                if how == "list":
+                    return list(vals)
+                if how == "tuple":
+                    return tuple(vals)
+                if how == "set":
+                    return set(vals)
+                if how == "OrderedSet":
+                    return OS(list(vals))
+                if how == "dict-keys":
+                    return dict.fromkeys(vals).keys()
+                if how == "generator":
+                    return (v for v in list(vals))
+                if how == "iter":
+                    return iter(list(vals))
+                return map(lambda v: v, list(vals))
+
+            xa, xc = present(a, pa), present(c, pc)
+            if pc == "set":
+                # "ordered by the second argument" means a set's own iteration order
+                c_eff = list(xc)
+                exp = {"ordered_union": da + [v for v in c_eff if v not in da], "ordered_intersect": exp_i,
+                       "ordered_diff": exp_d}[name]
+            b.count("helper_argument_kinds", pa + "," + pc)
             try:
-                got = fn(list(a), list(c))
+                got = fn(xa, xc)
                 ok = isinstance(got, OS) and list(got) == exp
             except Exception as ex:
                 got = exc_str(ex)
                 ok = False
             if not ok:
-                b.violation("helper-order", f"{name}({a},{c}) = {got!r}, expected {exp}",
-                            case={"helper": name, "a": a, "b": c})
+                b.violation("helper-order", f"{name}({pa} {a}, {pc} {c}) = {got!r}, expected {exp}",
+                            case={"helper": name, "a": a, "b": c, "kinds": [pa, pc]})
+                continue
+            # the helpers return a new set: the caller's own containers must be what they were
+            for which, x, vals, how in (("first", xa, a, pa), ("second", xc, c, pc)):
+                if how in ("list", "tuple", "set", "OrderedSet"):
+                    now = list(x) if how != "set" else sorted(x, key=repr)
+                    was = (list(vals) if how in ("list", "tuple") else (list(dict.fromkeys(vals)) if how == "OrderedSet" else sorted(set(vals), key=repr)))
+                    if now != was:
+                        b.violation("helper-modified-argument", f"{name}: the {which} argument ({how}) was {was} and is {now} after the call",
+                                    case={"helper": name, "a": a, "b": c, "kinds": [pa, pc]})
+            if isinstance(xa, OS) and got is xa:
+                b.violation("helper-modified-argument", f"{name}: the result is the caller's own first argument object",
+                            case={"helper": name, "a": a, "b": c, "kinds": [pa, pc]})
         if a and c:
             b.sig("helpers:%d:%d:%d" % (len(da), len(dc), len(exp_i)))
 
